@@ -103,9 +103,12 @@ func canonString(m map[int]map[string]string) string {
 	return fmt.Sprintf("%v", m) // fmt prints maps with sorted keys
 }
 
+// c05SetupCmds is the initial dataset the interleaving helpers start from (another check may install its own).
+var c05SetupCmds = c05Setup
+
 func c05Fresh() *Inst {
 	in := lightInst()
-	for _, c := range c05Setup {
+	for _, c := range c05SetupCmds {
 		in.Do(c...)
 	}
 	return in
